@@ -1154,6 +1154,7 @@ var predEntries = []predEntry{
 	{"wrappingCounter.inc", true},
 	{"updateCRC32", false},
 	{"computeCRC32", false},
+	{"hasCounterDiscontinuity", false},
 	{"hasDiscontinuity", false},
 	{"isSameAsPrevious", false},
 	{"isPSIPayload", false},
